@@ -9,9 +9,10 @@ import Percival.Proofs.EventsC04Run
 implementation's traces are judged by it on every run of the check).  Proved here: every trace of
 the model (`Model.Events`, which follows `events_run_internal` statement by statement) is accepted
 by that monitor; the immediate-event machinery (`heads[32]` + `minq`) refines one stable priority
-queue; the timeout handed to `poll` — at first, and again after every EINTR — is exactly the time to
-the earliest deadline rounded up to a millisecond.  The timer queue is used through the C13 contract
-(`TQContract`).
+queue; the timeout handed to `poll` — at first, and again after every EINTR — is never more than the
+time to the earliest deadline rounded up to a millisecond (for every deadline: `C05.ceilMs` has no upper
+limit), exactly that below 2147483 s, and 0 exactly when the deadline has passed.  The timer queue is
+used through the C13 contract (`TQContract`).
 -/
 namespace Percival.C05
 open Percival.Spec.Events Percival.Model.Events
@@ -48,39 +49,96 @@ example : ∃ q1 q2 q3, immRegister {} 1 5 = some q1 ∧ immRegister q1 2 3 = so
   refine ⟨_, _, _, rfl, rfl, rfl, ?_⟩
   decide +kernel
 
-/-- **timeout.** For a timer due at `dl` µs with the clock at `clock` µs, `events_timer_min` followed by
-    `events_network_select`'s conversion yields exactly `⌈(dl - clock)/1000⌉` ms (saturating at INT_MAX
-    from INT_MAX/1000 seconds on), and 0 once the timer is due. -/
+/-- **timeout.** For a timer due at `dl` µs with the clock at `clock` µs, the timeout `t` that
+    `events_timer_min` followed by `events_network_select`'s conversion (`tv2ms`) hands to `poll`
+    * never exceeds `⌈(dl - clock)/1000⌉` ms — `C05.ceilMs`, the property's "rounded up to a millisecond",
+      which has no upper limit: this holds for *every* deadline, also one more than `INT_MAX` ms (24.8 days)
+      away;
+    * is exactly that whenever less than `INT_MAX / 1000` = 2147483 s are left;
+    * from 2147483 s on is 2147483000 ms = `(INT_MAX / 1000) * 1000` (the loop then wakes up early, finds
+      nothing due and is called again);
+    * is never negative, and is 0 exactly when the timer is due (no blocking then; no busy loop before).
+
+    Before the repair of finding F12 (`notes/F12-fix.md`) the first clause was false: with 2147483 s and
+    0 … 646000 µs left the code asked for `INT_MAX` = 2147483647 ms, up to 647 ms beyond the deadline. -/
 theorem select_timeout_ceil (clock dl : Nat) :
-    selectTimeout (some (timerDiff clock ((dl / 1000000 : Nat) : Int) ((dl % 1000000 : Nat) : Int))) = C05.ceilMs (dl - clock) :=
-  selectTimeout_timerDiff clock dl
+    let t := selectTimeout (some (timerDiff clock ((dl / 1000000 : Nat) : Int) ((dl % 1000000 : Nat) : Int)))
+    t ≤ C05.ceilMs (dl - clock) ∧
+    (dl - clock < 2147483000000 → t = C05.ceilMs (dl - clock)) ∧
+    (2147483000000 ≤ dl - clock → t = 2147483000) ∧
+    0 ≤ t ∧ (t = 0 ↔ dl ≤ clock) := by
+  intro t
+  have e : t = satMs (dl - clock) := selectTimeout_timerDiff clock dl
+  rw [e]
+  refine ⟨satMs_le _, fun h => satMs_lt h, fun h => satMs_ge h, satMs_nonneg _, ?_⟩
+  rw [satMs_eq_zero]; omega
 
 example : selectTimeout (some (timerDiff 1500 0 2501)) = 2 ∧ selectTimeout (some (timerDiff 1500 0 2500)) = 1 ∧
     selectTimeout (some (timerDiff 3000 0 2500)) = 0 ∧ selectTimeout none = -1 := by decide
 
+/-- the saturation point, with the clock at 1.5 s: 2147482.999999 s, 2147483.000000 s, 2147483.647 s,
+    2147483.647001 s, 2147484 s and 3·10⁹ s ahead — timeout and `ceilMs` of the time left (equal in the
+    first case, the timeout smaller in all others) -/
+example :
+    (selectTimeout (some (timerDiff 1500000 2147484 499999)) = 2147483000 ∧ C05.ceilMs (2147484499999 - 1500000) = 2147483000) ∧
+    (selectTimeout (some (timerDiff 1500000 2147484 500000)) = 2147483000 ∧ C05.ceilMs (2147484500000 - 1500000) = 2147483000) ∧
+    (selectTimeout (some (timerDiff 1500000 2147485 147000)) = 2147483000 ∧ C05.ceilMs (2147485147000 - 1500000) = 2147483647) ∧
+    (selectTimeout (some (timerDiff 1500000 2147485 147001)) = 2147483000 ∧ C05.ceilMs (2147485147001 - 1500000) = 2147483648) ∧
+    (selectTimeout (some (timerDiff 1500000 2147485 500000)) = 2147483000 ∧ C05.ceilMs (2147485500000 - 1500000) = 2147484000) ∧
+    (selectTimeout (some (timerDiff 1500000 3000000001 500000)) = 2147483000 ∧ C05.ceilMs (3000000001500000 - 1500000) = 3000000000000) ∧
+    -- 2147482.998999 s: a millisecond less
+    (selectTimeout (some (timerDiff 1500000 2147484 498999)) = 2147482999 ∧ C05.ceilMs (2147484498999 - 1500000) = 2147482999) := by decide
+
 /-- **timeout after EINTR.** A finite wait for the timer due at `dl` µs started with the clock at `clock`
     µs (`tv` = `events_timer_min`'s answer, `tstart` = the reading `events_network_select` takes before
     the first poll).  When poll fails with EINTR and the clock then reads `tnow` (it never runs
-    backwards), the loop polls again with exactly `⌈(dl - tnow)/1000⌉` ms — what is left until the
-    deadline, not the full timeout again — and with 0 once the deadline has passed.  By induction this
-    holds after any number of EINTRs, since `tv` and `tstart` are fixed and only `tnow` moves. -/
+    backwards), the loop polls again with a timeout `t` computed from what is left until the deadline —
+    not the full timeout again: `t` never exceeds `⌈(dl - tnow)/1000⌉` ms (for every deadline, however
+    far away), is exactly that whenever less than 2147483 s are left, is 2147483000 ms from there on, is
+    never negative and is 0 exactly when the deadline has passed.  By induction this holds after any
+    number of EINTRs, since `tv` and `tstart` are fixed and only `tnow` moves. -/
 theorem select_timeout_after_eintr (clock dl tnow : Nat) (h : clock ≤ tnow) :
-    timeLeft (timerDiff clock ((dl / 1000000 : Nat) : Int) ((dl % 1000000 : Nat) : Int)) clock tnow = C05.ceilMs (dl - tnow) := by
+    let t := timeLeft (timerDiff clock ((dl / 1000000 : Nat) : Int) ((dl % 1000000 : Nat) : Int)) clock tnow
+    t ≤ C05.ceilMs (dl - tnow) ∧
+    (dl - tnow < 2147483000000 → t = C05.ceilMs (dl - tnow)) ∧
+    (2147483000000 ≤ dl - tnow → t = 2147483000) ∧
+    0 ≤ t ∧ (t = 0 ↔ dl ≤ tnow) := by
+  intro t
   obtain ⟨d1, _, d3, d4⟩ := timerDiff_spec clock dl
-  rw [timeLeft_eq _ clock tnow (dl - clock) d3 d4 d1]
-  congr 1
-  omega
+  have e : t = satMs (dl - tnow) := by
+    show timeLeft _ clock tnow = _
+    rw [timeLeft_eq _ clock tnow (dl - clock) d3 d4 d1]
+    congr 1
+    omega
+  rw [e]
+  refine ⟨satMs_le _, fun h => satMs_lt h, fun h => satMs_ge h, satMs_nonneg _, ?_⟩
+  rw [satMs_eq_zero]; omega
 
 example : timeLeft (timerDiff 0 1 1) 0 1000 = 1000 ∧ timeLeft (timerDiff 0 1 1) 0 1001 = 999 ∧
     timeLeft (timerDiff 0 1 1) 0 1000000 = 1 ∧ timeLeft (timerDiff 0 1 1) 0 1000001 = 0 ∧
-    timeLeft (timerDiff 0 1 1) 0 5000000 = 0 ∧
-    timeLeft (timerDiff 0 2147484 0) 0 1000000 = 2147483647 ∧ timeLeft (timerDiff 0 2147484 0) 0 1000001 = 2147483000 := by decide
+    timeLeft (timerDiff 0 1 1) 0 5000000 = 0 := by decide
+
+/-- a wait for a timer 3·10⁹ s ahead, interrupted when 3·10⁹ s, 2147484 s, 2147483.647001 s, 2147483.647 s,
+    2147483.000000 s, 2147482.999999 s (equal to the ceiling from here on), 2147482.999 s are left, at the
+    deadline and after it -/
+example :
+    timeLeft (timerDiff 7 3000000000 7) 7 7 = 2147483000 ∧
+    timeLeft (timerDiff 7 3000000000 7) 7 (3000000000000007 - 2147484000000) = 2147483000 ∧
+    timeLeft (timerDiff 7 3000000000 7) 7 (3000000000000007 - 2147483647001) = 2147483000 ∧
+    timeLeft (timerDiff 7 3000000000 7) 7 (3000000000000007 - 2147483647000) = 2147483000 ∧
+    timeLeft (timerDiff 7 3000000000 7) 7 (3000000000000007 - 2147483000000) = 2147483000 ∧
+    timeLeft (timerDiff 7 3000000000 7) 7 (3000000000000007 - 2147482999999) = 2147483000 ∧
+    timeLeft (timerDiff 7 3000000000 7) 7 (3000000000000007 - 2147482999000) = 2147482999 ∧
+    timeLeft (timerDiff 7 3000000000 7) 7 3000000000000007 = 0 ∧
+    timeLeft (timerDiff 7 3000000000 7) 7 3000000000000008 = 0 := by decide
 
 
 /-- **P1 (`run_admissible_C05`).** For every program (top-level API calls; callback scripts that
     register, cancel, reset, request an interrupt, move the clock, return any status; all priorities;
     tied deadlines; scripted poll answers with ERR/HUP, EINTR — with any amount of time passing before the signal, any
-    number of times in a row — and clock advance) and every fuel, the
+    number of times in a row —, a signal whose handler calls `events_interrupt()` during any poll (infinite, finite
+    or zero timeout, at any position among the other answers, whatever becomes ready or expires next), and clock
+    advance) and every fuel, the
     trace of the model is accepted by the C05 monitor: immediates run in `nextImm` order and before any
     socket or timer callback; a timer runs only when no socket reported by the latest poll is waiting
     and no timer has an earlier deadline; no poll blocks while something is runnable, none blocks
@@ -88,14 +146,20 @@ example : timeLeft (timerDiff 0 1 1) 0 1000 = 1000 ∧ timeLeft (timerDiff 0 1 1
     call that starts with something runnable, or wakes up for a registered descriptor or an expired
     timer, runs a callback before it returns, and does not return 0 (uninterrupted) while the latest
     poll's report or an expired timer is still outstanding; after a non-zero status or with an
-    interrupt request pending nothing more is dispatched and the return value is that status / 0;
+    interrupt request pending nothing more is dispatched and the return value is that status / 0; an
+    interrupt request made by a signal handler while poll was waiting (timeout ≠ 0) stops dispatching at
+    once — no callback is started and no further poll issued in that call, which returns 0 (one made during
+    the non-blocking poll between two callbacks lets the pass finish: at most one more callback);
     `events_network_cancel`/`register` answer ENOENT/EEXIST exactly for absent/present registrations
     (events not yet run stay registered).
 
     The model is that of the repaired `events_network_select` (finding F11, `notes/F11-fix.md`): after
     EINTR a finite wait goes on with what is left of it by the monotonic clock.  For the code before
     the repair (poll restarted with the full timeout) the statement was false — it needed the
-    hypothesis that no time passes during an EINTR. -/
+    hypothesis that no time passes during an EINTR.  Likewise for finding F12 (`notes/F12-fix.md`): the
+    monitor's `ceilMs` is plain rounding up with no upper limit, and the model's `tv2ms` saturates to
+    2147483000 ms; for the code before that repair (`INT_MAX` ms from 2147483 s on) the statement was
+    false for every timer 2147483 s + 0 … 646000 µs ahead. -/
 theorem run_admissible_C05 (C : TQContract) (fuel : Nat) (prog : List Top) :
     C05.admissible (run fuel prog) = true :=
   run_admissible C fuel prog
@@ -118,8 +182,49 @@ example : run 50 [.api (.regTimer 0 1000001), .pollAns (.eintr 1000), .pollAns (
      .poll 0 0 [] .ok, .poll 0 0 [] .ok, .cb 0, .cbEnd 0, .poll 0 0 [] .ok, .ret 0] := by
   decide +kernel
 
+/-- a signal handler calls `events_interrupt()` while the loop waits 5 ms for a timer, at the very moment of the deadline,
+    and the descriptor is ready at the next poll: the call returns 0 at once — no zero-timeout poll, no callback —, the
+    interrupt flag is cleared, both events are still registered, and the next call runs them (socket first) -/
+example : run 50 [.api (.regNet 1 3 .rd), .api (.regTimer 2 5000), .pollAns (.intr 5000),
+                  .pollAns (.ans 0 [(3, { r := true })]), .run, .run] =
+    [.op (.regNet 1 3 .rd) .ok, .op (.regTimer 2 5000) .ok,
+     .runBegin, .poll 5 5000 [⟨3, { r := true }, {}⟩] .intr, .ret 0,
+     .runBegin, .poll 0 0 [⟨3, { r := true }, { r := true }⟩] .ok, .cb 1, .cbEnd 0, .poll 0 0 [] .ok, .cb 2, .cbEnd 0,
+     .poll 0 0 [] .ok, .ret 0] := by
+  decide +kernel
+
+/-- the same signal during an infinite wait, after an EINTR without a request, and during the non-blocking poll that
+    follows a callback (there the pass goes on: the expired timer still runs, then dispatching stops) -/
+example : run 50 [.api (.regNet 1 3 .rd), .pollAns (.eintr 7), .pollAns (.intr 9), .run,
+                  .api (.regTimer 2 0), .pollAns (.ans 0 [(3, { r := true })]), .pollAns (.intr 0), .run] =
+    [.op (.regNet 1 3 .rd) .ok,
+     .runBegin, .poll (-1) 7 [⟨3, { r := true }, {}⟩] .eintr, .poll (-1) 9 [⟨3, { r := true }, {}⟩] .intr, .ret 0,
+     .op (.regTimer 2 0) .ok,
+     .runBegin, .poll 0 0 [⟨3, { r := true }, { r := true }⟩] .ok, .cb 1, .cbEnd 0, .poll 0 0 [] .intr, .cb 2, .cbEnd 0, .ret 0] := by
+  decide +kernel
+
+/-- finding F12's input on the repaired code: a timer 2147483.5 s ahead.  The first call waits 2147483000 ms
+    (not `INT_MAX` ms, which would end 147 ms after the deadline), finds nothing due and returns 0; the
+    next call waits the remaining 500 ms and runs the timer at its deadline -/
+example : run 50 [.api (.regTimer 0 2147483500000), .run, .run] =
+    [.op (.regTimer 0 2147483500000) .ok,
+     .runBegin, .poll 2147483000 2147483000000 [] .ok, .poll 0 0 [] .ok, .ret 0,
+     .runBegin, .poll 500 500000 [] .ok, .poll 0 0 [] .ok, .cb 0, .cbEnd 0, .poll 0 0 [] .ok, .ret 0] := by
+  decide +kernel
+
 /-- the monitor is not vacuous -/
 example :
+    -- the ceiling has no upper limit: `INT_MAX` ms is too long for a deadline 2147483.5 s or 2147483.000001 s away
+    -- (what the code did before the repair of F12); the exact ceiling and anything shorter is accepted, and for
+    -- a deadline beyond `INT_MAX` ms any `int` is
+    C05.admissible [.op (.regTimer 0 2147483500000) .ok, .runBegin, .poll 2147483647 2147483647000 [] .ok] = false ∧
+    C05.admissible [.op (.regTimer 0 2147483000001) .ok, .runBegin, .poll 2147483647 2147483647000 [] .ok] = false ∧
+    C05.admissible [.op (.regTimer 0 2147483500000) .ok, .runBegin, .poll 2147483501 2147483501000 [] .ok] = false ∧
+    C05.admissible [.op (.regTimer 0 2147483500000) .ok, .runBegin, .poll 2147483500 2147483500000 [] .ok] = true ∧
+    C05.admissible [.op (.regTimer 0 2147483500000) .ok, .runBegin, .poll 2147483000 2147483000000 [] .ok, .poll 0 0 [] .ok, .ret 0] = true ∧
+    C05.admissible [.op (.regTimer 0 2147483647001) .ok, .runBegin, .poll 2147483647 2147483647000 [] .ok, .poll 0 0 [] .ok, .ret 0] = true ∧
+    C05.admissible [.op (.regTimer 0 2147483500000) .ok, .runBegin, .poll 2147483000 2147483000000 [] .eintr,
+                    .poll 2147483647 0 [] .ok] = false ∧
     -- priority order / FIFO
     C05.admissible [.op (.regImm 1 5) .ok, .op (.regImm 2 3) .ok, .runBegin, .cb 1] = false ∧
     C05.admissible [.op (.regImm 1 5) .ok, .op (.regImm 2 5) .ok, .runBegin, .cb 2] = false ∧
@@ -141,6 +246,23 @@ example :
     C05.admissible [.op (.regImm 1 0) .ok, .op (.regImm 2 0) .ok, .runBegin, .cb 1, .cbEnd 7, .cb 2] = false ∧
     C05.admissible [.op (.regImm 1 0) .ok, .runBegin, .cb 1, .cbEnd 7, .ret 0] = false ∧
     C05.admissible [.op (.regImm 1 0) .ok, .op (.regImm 2 0) .ok, .runBegin, .cb 1, .op .interrupt .ok, .cbEnd 0, .cb 2] = false ∧
+    -- an interrupt request made by a signal handler while poll waits (infinite / finite timeout): return 0 at once —
+    -- no look for more descriptors, no callback for the descriptor that is ready by then or the timer that expires
+    -- at that moment (what the code does if the flag is tested only at the end of a pass: seeded change C05-3)
+    C05.admissible [.op (.regNet 1 3 .rd) .ok, .runBegin, .poll (-1) 5 [⟨3, { r := true }, {}⟩] .intr, .ret 0] = true ∧
+    C05.admissible [.op (.regNet 1 3 .rd) .ok, .runBegin, .poll (-1) 5 [⟨3, { r := true }, {}⟩] .intr,
+                    .poll 0 0 [⟨3, { r := true }, { r := true }⟩] .ok] = false ∧
+    C05.admissible [.op (.regNet 1 3 .rd) .ok, .runBegin, .poll (-1) 5 [⟨3, { r := true }, {}⟩] .stuck,
+                    .poll 0 0 [⟨3, { r := true }, { r := true }⟩] .ok] = false ∧
+    C05.admissible [.op (.regNet 1 3 .rd) .ok, .runBegin, .poll (-1) 5 [⟨3, { r := true }, {}⟩] .intr, .cb 1] = false ∧
+    C05.admissible [.op (.regTimer 2 1000) .ok, .runBegin, .poll 1 1000 [] .intr, .cb 2] = false ∧
+    C05.admissible [.op (.regTimer 2 1000) .ok, .runBegin, .poll 1 1000 [] .intr, .ret 0] = true ∧
+    C05.admissible [.op (.regTimer 2 1000) .ok, .runBegin, .poll 1 1000 [] .intr, .ret (-1)] = false ∧
+    -- … during the non-blocking poll of a pass: that pass may still run one event, nothing after it
+    C05.admissible [.op (.regTimer 2 0) .ok, .op (.regTimer 3 0) .ok, .runBegin, .poll 0 0 [] .ok, .poll 0 0 [] .intr,
+                    .cb 2, .cbEnd 0, .ret 0] = true ∧
+    C05.admissible [.op (.regTimer 2 0) .ok, .op (.regTimer 3 0) .ok, .runBegin, .poll 0 0 [] .ok, .poll 0 0 [] .intr,
+                    .cb 2, .cbEnd 0, .cb 3] = false ∧
     -- unfired registrations stay
     C05.admissible [.op (.regNet 1 3 .rd) .ok, .op (.cancelNet 3 .rd) .enoent] = false := by
   decide
